@@ -1,7 +1,7 @@
 """C15: queries are pure, optimize changes only vertex poses (frame conditions of GraphSLAM imposed on recorded executions)."""
 from .. import scenario
 
-TEMPLATES = ['r2', 'r3', 'se2', 'se3', 'se2c', 'se3c', 'r2c', 'mixed', 'se2fix', 'se2alias', 'se2shared', 'r3shared', 'r2lonely', 'se3lonely', 'se2big', 'se2plain', 'se3reg', 'se2plainc', 'se2desc', 'se3desc', 'se3neg', 'se3rough', 'se2rim']
+TEMPLATES = ['r2', 'r3', 'se2', 'se3', 'se2c', 'se3c', 'r2c', 'mixed', 'se2fix', 'se2alias', 'se2shared', 'r3shared', 'r2lonely', 'se3lonely', 'se2big', 'se2plain', 'se3reg', 'se2plainc', 'se2desc', 'se3desc', 'se3neg', 'se3rough', 'se2rim', 'se2hard']
 
 
 def model_check(run, thorough):
@@ -92,6 +92,8 @@ def check(run):
         behaviours.append((tname, [qy(nm, t) for t in range(1, 9) for nm in ('vertex_to_g2o', 'pose_ops', 'edge_jacobians', 'edge_contribs', 'pose_copy')] + [qy('equals'), qy('plot'), qy('calc_chi2')]))
     # an edge on the rim of its error's domain: numerical differentiation meets NaN there; every query, repeated
     behaviours.append(('se2rim', [qy(nm, t) for t in (13, 12, 26) for nm in ('edge_error', 'edge_jacobians', 'edge_contribs', 'edge_chi2', 'calc_chi2', 'edge_jacobians')]))
+    # non-finite information entries: every kind of query on the affected edges
+    behaviours.append(('se2hard', [qy(nm, t) for t in (3, 5, 3) for nm in ('edge_chi2', 'edge_contribs', 'edge_jacobians', 'calc_chi2', 'edge_to_g2o', 'equals')]))
     events = []
     sessions = scenario.play(behaviours, run.seed, events, twin_every=3)
     rejects = scenario.validate(run, events)
